@@ -505,6 +505,18 @@ pub fn replay_activation(case: &Value, rep: &mut Report) {
                 rep.mismatch("C07", &format!("{}_{}", dir, d["what"].as_str().unwrap().replace(' ', "_")), &id, d, case);
                 return;
             }
+            // flat and 3-D tensors go through different arms of the same function: bit-identical element by element --
+            // also AT a kink, where the property does not say which one-sided value is right
+            if rank != 1 {
+                let flat_in = Tensor::single(xs.clone());
+                if let Ok(o1) = guarded(|| if dir == "forward" { f.forward(&flat_in) } else { f.backward(&flat_in) }) {
+                    let y1 = flat(&o1);
+                    if let Some(k) = (0..ys.len().min(y1.len())).find(|k| ys[*k].to_bits() != y1[*k].to_bits() && !(ys[*k].is_nan() && y1[*k].is_nan())) {
+                        rep.mismatch("C07", &format!("{}_differs_between_flat_and_3d", dir), &id, json!({"x": format!("{:e}", xs[k]), "flat": format!("{:e}", y1[k]), "3d": format!("{:e}", ys[k])}), case);
+                        return;
+                    }
+                }
+            }
             // backward = derivative of the forward definition (symbolic derivative from the specification)
             if let Some(sym) = case["symbolic"].as_array().and_then(|a| a.first()) {
                 for (x, y) in xs.iter().zip(ys.iter()) {
@@ -534,7 +546,11 @@ pub fn replay_activation(case: &Value, rep: &mut Report) {
             let id = format!("activation:softmax:{:?}:rank{}", xs, rank);
             rep.nontrivial(id.clone());
             rep.checks += 1;
-            let input = if rank == 1 { Tensor::single(xs.clone()) } else { crate::tensors::triple_rowmajor(&[1, 1, xs.len()], &xs) };
+            // 3-D: a single row, and -- when the length allows -- several channels with several rows and columns
+            // (soft-max is over ALL elements; their row-major order must survive)
+            let n = xs.len();
+            let shape3: Vec<usize> = if n % 4 == 0 && n >= 8 { vec![2, 2, n / 4] } else if n % 2 == 0 && n >= 4 { vec![2, 1, n / 2] } else { vec![1, 1, n] };
+            let input = if rank == 1 { Tensor::single(xs.clone()) } else { crate::tensors::triple_rowmajor(&shape3, &xs) };
             let out = match guarded(|| f.forward(&input)) {
                 Ok(o) => o,
                 Err(e) => {
